@@ -610,6 +610,10 @@ func (c *CEnv) evalCall(e *CExpr) Val {
 		need(1)
 		v := c.eval(e.Args[0])
 		return Val{T: mk("to_int", SInt, x.toReal(v)), Ty: tyInt}
+	case "iceil": // integer ceiling of a real: -floor(-v)
+		need(1)
+		v := c.eval(e.Args[0])
+		return Val{T: Neg(mk("to_int", SInt, mk("-", SReal, x.toReal(v)))), Ty: tyInt}
 	case "sqrt", "exp", "log", "erfc", "lgamma":
 		need(1)
 		return x.mathFn(e.Name, []Val{fl(c.eval(e.Args[0]))})
